@@ -5,7 +5,7 @@
    With BugSet = Bugs (MC_Reorder_neg.cfg) the same machine is run with each deliberately wrong variant
    of the transformation on the richest font of the family; every variant must be reported (NEG) by the
    same predicates, which shows NameView / WellFormed are not vacuous.                              *)
-EXTENDS Reorder
+EXTENDS Reorder, Json
 
 CONSTANTS BugSet, Family
 VARIABLES font, view0, bug
@@ -51,6 +51,10 @@ Next ==
   /\ UNCHANGED <<view0, bug>>
 
 Spec == Init /\ [][Next]_vars
+
+(* generation for (R): every font of the family, once, as JSON (MC_Reorder_gen.cfg) *)
+NoNext == FALSE /\ UNCHANGED vars
+Emit == PrintT(<<"GEN", ToJson(font)>>)
 
 Inv_Wellformed0 == font.order = Glyphs => WellFormed(font)          \* the family itself is well formed
 Inv_NameView == bug = "none" => NameView(font) = view0
